@@ -178,3 +178,44 @@ def rekey_prepends(ctx):
         ctx.check(ok, api, 'returns mpk() after %s' % prim.split('::')[-1].rstrip('$'),
                   '%s does not return msk.mpk() computed after the primitive ran: callers would keep encrypting under a '
                   'stale public key' % api, 'return <- msk.mpk() dominated by the primitive call', body.where())
+
+
+@rule('C04', 'api-wiring')
+def api_wiring(ctx):
+    """rekey / prune / key generation act on the rights a user key for the policy would HOLD (ap_to_usk_rights), encapsulation
+    on the rights the policy TARGETS (ap_to_enc_rights): rotating only the targeted right would leave stale keys able to open
+    new encapsulations for more specific policies."""
+    F = ctx.F
+    want = [('api::Covercrypt::rekey', r'primitives::rekey$', 2, 'ap_to_usk_rights'),
+            ('api::Covercrypt::prune_master_secret_key', r'primitives::prune$', 1, 'ap_to_usk_rights'),
+            ('api::Covercrypt::generate_user_secret_key', r'primitives::usk_keygen$', 2, 'ap_to_usk_rights'),
+            ('<api::Covercrypt as traits::KemAc<SHARED_SECRET_LENGTH>>::encaps', r'primitives::encaps$', 2, 'ap_to_enc_rights')]
+    for (api, prim, ai, conv) in want:
+        body = F.fn(api)
+        pcs = body.calls(prim)
+        ok = len(pcs) == 1
+        got = '?'
+        if ok:
+            roots = copy_chain_sources(body, pcs[0].args[ai], through_calls=(r'^std::ops::Try::branch$',) + IDENTITY_CALLS)
+            got = sorted(set(r[1].name for r in roots if r[0] == 'call'))
+            ok = bool(roots) and all(r[0] == 'call' and r[1].name == conv for r in roots)
+            if ok:
+                cv = [r[1] for r in roots][0]
+                ap = lib.param_by_type(body, r'AccessPolicy$')
+                ok = any(r[0] == 'param' and r[1] == ap for r in root_descr(body, cv.args[1]))
+        ctx.check(ok, api, 'rights <- %s(ap)' % conv, '%s hands its primitive rights obtained through %s instead of %s(ap)' % (api, got, conv),
+                  '%s(ap)' % conv, body.where())
+    a = F.fn('abe_policy::access_structure::AccessStructure::ap_to_usk_rights')
+    b = F.fn('abe_policy::access_structure::AccessStructure::ap_to_enc_rights')
+    ctx.check(bool(a.calls(r'generate_complementary_rights$')) and bool(b.calls(r'generate_associated_rights$')), a.key, 'usk -> complementary, enc -> associated',
+              'ap_to_usk_rights / ap_to_enc_rights no longer map to the complementary / associated rights', '', a.where())
+
+
+@rule('C04', 'keep-old-merge', configs=('default', 'p256'))
+def keep_old_merge(ctx):
+    """'A key refreshed with keep-old still opens every encapsulation it could open before': the merge keeps every user secret
+    that is still in the master chain — it walks the master chain once, in lock-step (C05.single-pass-merge) and only drops what
+    does not compare equal (C05.subsequence)."""
+    from . import c05
+    c05.single_pass_merge(ctx)
+    c05.subsequence(ctx)
